@@ -20,6 +20,27 @@ def mkEntries : List Nat → List Nat → List Nat → Nat → Nat → List Entr
     insertById { id := i, prio := p, s := C22.mk life ka true (t != 0) } (mkEntries is ps ts ka life)
   | _, _, _, _, _ => []
 
+/-! ### arm tags -/
+
+def bucket (n top : Nat) : String := if n ≥ top then s!"{top}+" else toString n
+
+def tickTags (pre : String) (z : MSess) (r : Option (MSess × List MResp × List (Entry × Bool))) : List String :=
+  let order := sortBy true z.subs
+  let prios := z.subs.map (·.prio)
+  [s!"{pre}:n{bucket z.subs.length 4}",
+   if order.map (·.id) == z.subs.map (·.id) then s!"{pre}:order-as-map" else s!"{pre}:order-reordered",
+   if prios.eraseDups.length == prios.length then s!"{pre}:distinct" else s!"{pre}:ties"]
+  ++ (if prios.contains 0 then ["prio:0"] else []) ++ (if prios.contains 255 then ["prio:255"] else [])
+  ++ match r with
+    | none => [s!"{pre}:panic"]
+    | some (z', out, offs) =>
+      [s!"{pre}:resp{bucket out.length 2}",
+       if offs.all (·.2) then s!"{pre}:offer-all" else if offs.any (·.2) then s!"{pre}:offer-ran-out" else s!"{pre}:offer-none"]
+      ++ (if z'.subs.length < z.subs.length then [s!"{pre}:closed-removed"] else [])
+      ++ (if (out.map (·.sub)).eraseDups.length ≥ 2 then [s!"{pre}:several-answered"] else [])
+
+def tagStr (tags : List String) : String := " @@ " ++ ",".intercalate tags.eraseDups
+
 def dstep (z : MSess) (toks : List String) : MSess × String :=
   match toks with
   | ["reset", ids, prios, items, ka, life] =>
@@ -33,36 +54,51 @@ def dstep (z : MSess) (toks : List String) : MSess × String :=
   | ["timer", e, w] =>
     match parseBool? e, parseBool? w with
     | some e, some w =>
-      match tick (if w then write z else z) true e with
-      | some (z', out, _) => (z', "ok " ++ showSess z' out)
-      | none => (z, "panic")
+      let zz := if w then write z else z
+      let r := tick zz true e
+      let tags := tickTags "t" zz r ++ [if e then "t:el" else "t:notel"] ++ (if w then ["t:write"] else [])
+      match r with
+      | some (z', out, _) => (z', "ok " ++ showSess z' out ++ tagStr tags)
+      | none => (z, "panic" ++ tagStr tags)
     | _, _ => (z, "bad-op")
   | ["pub", r] =>
     match r.toNat? with
     | some r =>
+      let full := decide (z.reqs.length ≥ 2 * z.subs.length)
+      let r1 := if full then tick z false false else none
+      let t1 := if full then tickTags "p" z r1 ++ ["pub:queue-full"] else []
+      let z1 := match r1 with | some (z1, _, _) => z1 | none => z
+      let fits := decide (z1.reqs.length < 2 * z.subs.length)
+      let zq := { z1 with reqs := z1.reqs ++ [r] }
+      let t2 := if fits then tickTags "p" zq (tick zq false false) else []
       match publish z r with
-      | .ok z' out => (z', "ok res=ok " ++ showSess z' out)
-      | .tooMany z' out => (z', "ok res=toomany " ++ showSess z' out)
-      | .panic => (z, "panic")
+      | .ok z' out => (z', "ok res=ok " ++ showSess z' out ++ tagStr (t1 ++ t2 ++ ["pub:ok"]))
+      | .tooMany z' out => (z', "ok res=toomany " ++ showSess z' out ++ tagStr (t1 ++ ["pub:toomany"]))
+      | .panic => (z, "panic" ++ tagStr (t1 ++ t2))
     | none => (z, "bad-op")
   | ["setprio", i, p] =>
     match i.toNat?, p.toNat? with
     | some i, some p =>
       match setPrio z i p with
-      | some z' => (z', "ok " ++ showSess z' [])
-      | none => (z, "err nosub")
+      | some z' =>
+        let same := (sortBy true z.subs).map (·.id) == (sortBy true z'.subs).map (·.id)
+        let unchanged := z.subs.any fun x => x.id == i && x.prio == p
+        (z', "ok " ++ showSess z' [] ++ tagStr ["setprio:ok",
+          if unchanged then "setprio:same-value" else if same then "setprio:order-unchanged" else "setprio:order-changed"])
+      | none => (z, "err nosub" ++ tagStr ["setprio:nosub"])
     | _, _ => (z, "bad-op")
   | ["remove", i] =>
     match i.toNat? with
     | some i =>
       let (z', was) := remove z i
-      (z', s!"ok res={if was then "removed" else "none"} " ++ showSess z' [])
+      (z', s!"ok res={if was then "removed" else "none"} " ++ showSess z' []
+        ++ tagStr [if was then "remove:removed" else "remove:none"] )
     | none => (z, "bad-op")
   | ["add", i, p, t, ka, life] =>
     match i.toNat?, p.toNat?, t.toNat?, ka.toNat?, life.toNat? with
     | some i, some p, some t, some ka, some life =>
       let z' := add z { id := i, prio := p, s := C22.mk life ka true (t != 0) }
-      (z', "ok " ++ showSess z' [])
+      (z', "ok " ++ showSess z' [] ++ tagStr [if z.subs.any (fun x => x.id == i) then "add:replace" else "add:new"])
     | _, _, _, _, _ => (z, "bad-op")
   | _ => (z, "bad-op")
 
